@@ -48,7 +48,7 @@ WEIGHTS = {"rand": 3, "rand_diag": 1, "transpose": 3, "fuse": 3, "unfuse": 1, "c
 
 
 def budget(tier):
-    return 2500 if tier == "quick" else 40000
+    return 6000 if tier == "quick" else 40000
 
 
 def _generating():
@@ -482,8 +482,77 @@ class OpContainerSerial(e1.Op):
         return [sins[0].copy() if hasattr(sins[0], "copy") else sins[0]]
 
 
+@e1.register
+class CSerialDpt(e1.Op):
+    """Two-layer PEPS tensor (DoublePepsTensor) of a pooled PEPS site, with operator, fermionic charge swaps and a pending cyclic transposition,
+    sent through to_dict -> from_dict (seeded C17-c): the restored object must contract to the same tensor."""
+    name = "c_serial_dpt"
+    creates = True
+
+    def nout(self, rec):
+        return 0
+
+    def gen(self, g):
+        t = g.task
+        peps = [s for s, v in t.slots.items() if e3.is_peps(v) and type(v).__name__ == "Peps"]
+        if not peps:
+            return None
+        ch = sorted(t.space.charged())
+        swaps = []
+        if ch and g.rng.random() < 0.8:
+            for _ in range(g.rng.randint(1, 3)):
+                swaps.append([g.rng.choice("bk") + str(g.rng.randrange(5)), list(t.space.table[g.rng.choice(ch)].n)])
+        return {"op": "c_serial_dpt", "in": [g.rng.choice(peps)],
+                "args": {"site": list(g.rng.choice(t.sites)), "with_op": g.rng.choice([None] + sorted(t.space.table)), "swaps": swaps, "trans": g.rng.randrange(4),
+                         "route": g.rng.choice(["method", "function", "split", "numpy"]), "level": g.rng.choice([0, 1, 2])}}
+
+    def run(self, task, rec, ins):
+        ar = rec["args"]
+        A = ins[0][tuple(ar["site"])]
+        if A.ndim != 5:           # sites stored with fused legs are opened by the library on access; anything else is outside this op
+            return []
+        a = fpeps.DoublePepsTensor(bra=A, ket=A)
+        if ar["with_op"]:
+            a.set_operator_(task.space.table[ar["with_op"]])
+        for ax, c in ar["swaps"]:
+            a.add_charge_swaps_(tuple(c), ax)
+        a = a.transpose(axes=e3.ALLOWED_TRANS[ar["trans"]])
+        ref = a.fuse_layers()
+        b = container_roundtrip(a, ar["route"], ar["level"], task.cfg)
+        if _generating():
+            return []
+        V = core.Violation
+        what = "op %d round trip via %s (level %d) of a DoublePepsTensor (operator %s, swaps %s, transposition %s)" % (
+            rec["id"], ar["route"], ar["level"], ar["with_op"], ar["swaps"], e3.ALLOWED_TRANS[ar["trans"]])
+        if type(b) is not type(a):
+            raise V(PROP, "type", "%s: restored %s" % (what, type(b).__name__))
+        got = b.fuse_layers()
+        if got.get_legs() != ref.get_legs() or got.n != ref.n:
+            raise V(PROP, "structure", "%s: the restored object contracts to a tensor with different legs or charge" % what)
+        x, y = ref.to_numpy(), got.to_numpy()
+        if x.shape != y.shape or not np.array_equal(x, y):
+            raise V(PROP, "values", "%s: the restored object contracts to a different tensor (max deviation %.3e)" % (what, float(np.max(np.abs(x - y))) if x.shape == y.shape else -1))
+        if (b.op is None) != (a.op is None) or tuple(b.trans) != tuple(a.trans) or b.get_legs() != a.get_legs():
+            raise V(PROP, "structure", "%s: operator / pending transposition / legs differ" % what)
+        if ar["level"] == 2 or ar["route"] == "numpy":
+            for nm in ("bra", "ket"):
+                ta, tb = getattr(a, nm), getattr(b, nm)
+                if ta._data.size and np.shares_memory(ta._data, tb._data):
+                    raise V(PROP, "independence", "%s: restored %s shares memory with the source" % (what, nm))
+        w = core.current_world()
+        w.stats["roundtrips"] += 1
+        w.stats["container_roundtrips"] += 1
+        w.probes["roundtrip_dpt_%s" % ar["route"]] += 1
+        if ar["swaps"]:
+            w.probes["roundtrip_dpt_with_swaps"] += 1
+        return []
+
+    def shadow(self, task, rec, sins, outs, ins=None):
+        return []
+
+
 W_E2 = {"m_random_mps": 3, "m_random_mpo": 2, "m_product_mps": 0.7, "m_generate_mpo": 1, "m_add": 1.5, "m_scal": 2, "m_matmul": 1, "m_unary": 1.5, "m_inplace": 5, "c_serial": 9}
-W_E3 = {"p_init": 1.2, "p_prepare": 0.8, "p_gate": 4, "p_copy": 0.5, "p_add": 1, "p_env": 2.5, "c_serial": 8}
+W_E3 = {"p_init": 1.2, "p_prepare": 0.8, "p_gate": 4, "p_copy": 0.5, "p_add": 1, "p_env": 2.5, "c_serial": 8, "c_serial_dpt": 3}
 
 
 def build_container(seed, tier, kind):
@@ -519,7 +588,7 @@ def after_op(w, task, rec, outs):
 
 
 def on_exception(w, task, rec, exc):
-    if rec["op"] in ("serial", "serial_meta", "serial_reject", "c_serial"):
+    if rec["op"] in ("serial", "serial_meta", "serial_reject", "c_serial", "c_serial_dpt"):
         raise core.Violation(PROP, "exception-where-result-promised", "op %d %s %s raised %s: %s" % (rec["id"], rec["op"], rec["args"], type(exc).__name__, str(exc)[:150]), op=rec["op"])
 
 
